@@ -53,10 +53,26 @@ func NewServer() *Server {
 		loader:       include.NewLoader(),
 		diagVersions: make(map[protocol.DocumentURI]uint64),
 	}
+	srv.loader.SetOpenContentProvider(srv.openDocumentByPath)
 	defaults := defaultServerSettings()
 	srv.cliClient = cli.NewClient(defaults.CLI.Path, defaults.CLI.Timeout)
 	srv.setSettings(defaults)
 	return srv
+}
+
+// openDocumentByPath returns the current text of the open document stored under path.
+func (s *Server) openDocumentByPath(path string) (string, bool) {
+	var content string
+	found := false
+	s.documents.Range(func(key, value any) bool {
+		docURI, ok := key.(protocol.DocumentURI)
+		if !ok || uriToPath(docURI) != path {
+			return true
+		}
+		content, found = value.(string)
+		return false
+	})
+	return content, found
 }
 
 func (s *Server) reinitCLI(cfg cliSettings) {
@@ -193,6 +209,8 @@ func (s *Server) Exit(ctx context.Context) error {
 func (s *Server) DidOpen(ctx context.Context, params *protocol.DidOpenTextDocumentParams) error {
 	s.documents.Store(params.TextDocument.URI, params.TextDocument.Text)
 	s.payeeTemplatesCache.Delete(params.TextDocument.URI)
+	// documents that include this one now resolve it from the editor's text
+	s.treeEpoch.Add(1)
 	version := s.nextDiagnosticsVersion(params.TextDocument.URI)
 	go s.publishDiagnosticsVersion(ctx, params.TextDocument.URI, params.TextDocument.Text, version)
 	return nil
@@ -240,6 +258,7 @@ func (s *Server) ApplyContentChanges(ctx context.Context, docURI protocol.Docume
 			}
 			s.loader.InvalidateFile(path)
 		}
+		s.treeEpoch.Add(1)
 		version := s.nextDiagnosticsVersion(docURI)
 		go s.publishDiagnosticsVersion(ctx, docURI, content, version)
 	}
@@ -253,6 +272,7 @@ func isFullChange(r protocol.Range) bool {
 
 func (s *Server) DidClose(ctx context.Context, params *protocol.DidCloseTextDocumentParams) error {
 	s.documents.Delete(params.TextDocument.URI)
+	s.treeEpoch.Add(1)
 	s.nextDiagnosticsVersion(params.TextDocument.URI)
 	tokenCache.delete(params.TextDocument.URI)
 	return nil
